@@ -135,25 +135,54 @@ type pendUD struct {
 }
 
 type impl struct {
-	st    *memStore
+	st    entryStore
 	lr    *c19.LogReader
 	log   *c19.Log
 	queue []*pendUD
 	last  *pb.Update
+	held  []heldSlice // every slice the log has handed out so far, with what it held then
 }
 
-func newImpl(mi, mt uint64, ents []pb.Entry, committed uint64) *impl {
-	st := newMemStore()
-	st.save(ents)
-	lr := c19.NewLogReader(1, 1, st)
+// heldSlice: a slice returned by the log (entries to save / to apply / a range)
+// that a caller may still hold (the engine holds EntriesToSave until the store has
+// it, CommittedEntries sit in the apply queue while raft goes on), and its
+// content at the time it was handed out.
+type heldSlice struct {
+	what string
+	at   int
+	s    []pb.Entry
+	was  string
+}
+
+func (m *impl) hold(what string, at int, s []pb.Entry) {
+	if len(s) > 0 {
+		m.held = append(m.held, heldSlice{what, at, s, showEnts(s)})
+	}
+}
+
+// aliasing: no later operation may change what an earlier handed-out slice shows
+func (m *impl) checkHeld(viol func(string)) {
+	for _, h := range m.held {
+		if now := showEnts(h.s); now != h.was {
+			viol(fmt.Sprintf("aliasing: the slice handed out as %s at op %d showed %s and now shows %s", h.what, h.at, h.was, now))
+			return
+		}
+	}
+}
+
+func newImpl(h header) *impl {
+	st := newStore(h.store)
+	st.save(h.ents)
+	shard, replica := st.ids()
+	lr := c19.NewLogReader(shard, replica, st.db())
 	lr.SetCompactor(nopCompactor{})
-	if mi > 0 {
-		if err := lr.ApplySnapshot(pb.Snapshot{Index: mi, Term: mt}); err != nil {
+	if h.mi > 0 {
+		if err := lr.ApplySnapshot(pb.Snapshot{Index: h.mi, Term: h.mt}); err != nil {
 			panic(err)
 		}
 	}
-	lr.SetRange(mi+1, uint64(len(ents)))
-	return &impl{st: st, lr: lr, log: c19.NewLog(lr, committed)}
+	lr.SetRange(h.mi+1, uint64(len(h.ents)))
+	return &impl{st: st, lr: lr, log: c19.NewLogRL(lr, h.committed, h.rlmax)}
 }
 
 func resU(v uint64, err error, p string) string {
@@ -187,6 +216,13 @@ func (m *impl) entries(lo, hi, mx uint64) string {
 	p := catch(func() { l, err = m.log.GetEntries(lo, hi, mx) })
 	return resE(l, err, p)
 }
+func (m *impl) entriesHeld(at int, lo, hi, mx uint64) string {
+	var l []pb.Entry
+	var err error
+	p := catch(func() { l, err = m.log.GetEntries(lo, hi, mx) })
+	m.hold(fmt.Sprintf("getEntries(%d,%d,%d)", lo, hi, mx), at, l)
+	return resE(l, err, p)
+}
 func (m *impl) toApply() string {
 	var l []pb.Entry
 	var err error
@@ -194,7 +230,7 @@ func (m *impl) toApply() string {
 	return resE(l, err, p)
 }
 
-func (m *impl) digest() string {
+func (m *impl) digest(at int) string {
 	f, l := m.log.FirstIndex(), m.log.LastIndex()
 	im := m.log.InMem()
 	ss := "-"
@@ -216,10 +252,22 @@ func (m *impl) digest() string {
 	if m.log.HasEntriesToApply() {
 		has = 1
 	}
-	return fmt.Sprintf("f=%d l=%d c=%d p=%d s=%d m=%d a=%d:%d ss=%s im=%s lr=%d:%d:%d T=%s save=%s apply=%s has=%d all=%s q=%d",
+	rls := "-"
+	if sz, on := m.log.RLSize(); on {
+		rls = fmt.Sprint(sz)
+	}
+	save := m.log.EntriesToSave()
+	m.hold("entriesToSave", at, save)
+	var app, all []pb.Entry
+	var aerr, lerr error
+	ap := catch(func() { app, aerr = m.log.EntriesToApply() })
+	lp := catch(func() { all, lerr = m.log.GetEntries(f, l+1, math.MaxUint64) })
+	m.hold("entriesToApply", at, app)
+	m.hold("getEntries(first,last+1)", at, all)
+	return fmt.Sprintf("f=%d l=%d c=%d p=%d s=%d m=%d a=%d:%d ss=%s im=%s lr=%d:%d:%d T=%s save=%s apply=%s has=%d all=%s q=%d rl=%s",
 		f, l, m.log.Committed(), m.log.Processed(), im.SavedTo, im.MarkerIndex, im.AppliedToIndex, im.AppliedToTerm,
-		ss, showEnts(im.Entries), rm, rt, rl-rm+1, T, showEnts(m.log.EntriesToSave()), m.toApply(), has,
-		m.entries(f, l+1, math.MaxUint64), len(m.queue))
+		ss, showEnts(im.Entries), rm, rt, rl-rm+1, T, showEnts(save), resE(app, aerr, ap), has,
+		resE(all, lerr, lp), len(m.queue), rls)
 }
 
 func showUD(ud pb.Update) string {
@@ -256,6 +304,8 @@ func (m *impl) exec(f []string) string {
 			if err == nil {
 				m.queue = append(m.queue, &pendUD{ud: ud})
 				m.last = &ud
+				m.hold("Update.EntriesToSave", len(m.held), ud.EntriesToSave)
+				m.hold("Update.CommittedEntries", len(m.held), ud.CommittedEntries)
 			}
 		case "P":
 			for _, q := range m.queue {
@@ -310,13 +360,31 @@ type header struct {
 	mi, mt, committed, limit uint64
 	wf                       bool
 	ents                     []pb.Entry
+	// optional dimensions (key=value tokens after the entries)
+	rlmax          uint64 // rl=N: MaxInMemLogSize of a real rate limiter under inMemory (0 / MaxUint64 = not limited)
+	sliceSz, minSz uint64 // ss=A:B: entrySliceSize / minEntrySliceSize (resize thresholds)
+	store          string // st=mem|plain|batched: the persistent store under the real LogReader
 }
 
 func parseHeader(f []string) header {
-	if len(f) != 7 || f[0] != "I" {
+	if len(f) < 7 || f[0] != "I" {
 		panic("bad header " + strings.Join(f, " "))
 	}
-	return header{mi: u(f[1]), mt: u(f[2]), committed: u(f[3]), limit: u(f[4]), wf: f[5] == "1", ents: parseEnts(f[6])}
+	h := header{mi: u(f[1]), mt: u(f[2]), committed: u(f[3]), limit: u(f[4]), wf: f[5] == "1", ents: parseEnts(f[6]), store: "mem"}
+	for _, o := range f[7:] {
+		switch {
+		case strings.HasPrefix(o, "rl="):
+			h.rlmax = u(o[3:])
+		case strings.HasPrefix(o, "ss="):
+			ab := strings.Split(o[3:], ":")
+			h.sliceSz, h.minSz = u(ab[0]), u(ab[1])
+		case strings.HasPrefix(o, "st="):
+			h.store = o[3:]
+		default:
+			panic("bad header option " + o)
+		}
+	}
+	return h
 }
 
 func splitCase(line string) (id string, hdr []string, ops []string) {
@@ -341,11 +409,17 @@ func runCase(line string, obs *vh.LineWriter, st *vh.Stats) {
 	h := parseHeader(hf)
 	old := c19.SetApplyLimit(h.limit)
 	defer c19.SetApplyLimit(old)
-	m := newImpl(h.mi, h.mt, h.ents, h.committed)
+	if h.sliceSz > 0 {
+		a, b := c19.SetSliceSizes(h.sliceSz, h.minSz)
+		defer c19.SetSliceSizes(a, b)
+	}
+	m := newImpl(h)
+	defer m.st.release()
 	mon := newMonitor(h, id, st)
-	obs.Printf("%s init %s\n", id, m.digest())
+	obs.Printf("%s init %s\n", id, m.digest(-1))
 	mon.check(m, -1, "init")
-	conflict, resaved := false, false
+	mon.always(m, -1)
+	conflict, resaved, resized := false, false, false
 	for k, o := range ops {
 		f := strings.Fields(o)
 		st.Count("op." + f[0])
@@ -355,7 +429,7 @@ func runCase(line string, obs *vh.LineWriter, st *vh.Stats) {
 			mon.queryTerm(m, k, u(f[1]))
 			continue
 		case "QE":
-			obs.Printf("%s %d ents=%s\n", id, k, m.entries(u(f[1]), u(f[2]), u(f[3])))
+			obs.Printf("%s %d ents=%s\n", id, k, m.entriesHeld(k, u(f[1]), u(f[2]), u(f[3])))
 			mon.queryEnts(m, k, u(f[1]), u(f[2]), u(f[3]))
 			continue
 		}
@@ -366,7 +440,22 @@ func runCase(line string, obs *vh.LineWriter, st *vh.Stats) {
 			}
 		}
 		mon.before(m, k, f)
+		_, cap0, shr0 := m.log.EntriesCap()
+		mk0 := m.log.InMem().MarkerIndex
 		out := m.exec(f)
+		if _, cap1, _ := m.log.EntriesCap(); out == "ok" {
+			mk1 := m.log.InMem().MarkerIndex
+			switch {
+			case f[0] == "K" && mk1 > mk0 && cap1 != cap0-int(mk1-mk0):
+				resized = true // appliedLogTo trimmed and resizeEntrySlice gave the shrunk slice up
+				st.Count("resize.in-appliedLogTo")
+			case (f[0] == "A" || f[0] == "R") && shr0 && cap1 != cap0:
+				resized = true // merge on a shrunk slice: resize() / newEntrySlice ran
+				st.Count("resize.in-merge-on-shrunk")
+			case (f[0] == "A" || f[0] == "R") && shr0:
+				st.Count("merge-on-shrunk.in-place")
+			}
+		}
 		if out != "ok" {
 			obs.Printf("%s %d %s\n", id, k, out)
 			st.Count("outcome." + out)
@@ -374,16 +463,23 @@ func runCase(line string, obs *vh.LineWriter, st *vh.Stats) {
 			break
 		}
 		if f[0] == "G" && m.last != nil {
-			obs.Printf("%s %d ok %s %s\n", id, k, showUD(*m.last), m.digest())
+			obs.Printf("%s %d ok %s %s\n", id, k, showUD(*m.last), m.digest(k))
 		} else {
-			obs.Printf("%s %d ok %s\n", id, k, m.digest())
+			obs.Printf("%s %d ok %s\n", id, k, m.digest(k))
 		}
+		mon.always(m, k)
 		if f[0] == "K" && conflict {
 			resaved = true
 		}
 		mon.after(m, k, f)
 	}
 	st.Count(fmt.Sprintf("case.wf=%v", h.wf))
+	st.Count("store." + h.store)
+	st.Count(fmt.Sprintf("ratelimiter.on=%v", h.rlmax > 0 && h.rlmax != math.MaxUint64))
+	st.Count(fmt.Sprintf("slicesize=%d:%d", h.sliceSz, h.minSz))
+	if resized {
+		st.Count("case.resize-of-shrunk-slice-ran")
+	}
 	st.Case(line[len(id):], conflict && resaved, line)
 }
 
